@@ -50,9 +50,15 @@ def c_pairs(prs):
     return clist(["(%s, %s)" % (cbytes(k), cbytes(v)) for k, v in prs], "(list Z * list Z)")
 
 
+PCT_SHAPES = [u"%41", u"%2", u"%%", u"%25", u"%20", u"%zz", u"%C3%A9", u"%2F", u"%", u"%4", u"50%25off", u"a%20b", u"%e2%82%ac",
+              u"%3D", u"%26", u"%2B", u"+%2B", u"%0A"]
+
+
 def rand_text(rng, maxlen=8):
     n = rng.randint(0, maxlen)
     out = []
+    if rng.random() < 0.25:      # text that contains a literal '%' shape / looks percent-quoted already
+        out.append(rng.choice(PCT_SHAPES))
     for _ in range(n):
         x = rng.random()
         if x < 0.45:
@@ -61,6 +67,7 @@ def rand_text(rng, maxlen=8):
             out.append(rng.choice(UNI))
         else:
             out.append(rng.choice(u"abcXYZ019-._~"))
+    rng.shuffle(out)
     return u"".join(out)
 
 
@@ -413,6 +420,10 @@ def whole_message_cases(req, resp, out):
         L = "(requester_headers %s %s %s %s)" % (cbytes(b"127.0.0.1:%d" % harness.PORT), c_hdrs(user), cbytes(body), cls)
         heads.append(("(requester_head %s %s %s)" % (cbytes(method), cbytes(url), L), cbytes(head + sep),
                       ("Requester.build head", req)))
+        qa = clist(["(%s, %s)" % (cbytes(k.encode("utf-8")), cbytes(v.encode("utf-8"))) for k, v in req["qargs"]],
+                   "(list Z * list Z)")
+        heads.append(("(request_target %s %s)" % (cbytes(req["path"].encode("utf-8")), qa), cbytes(url),
+                      ("Requester.build request target", req)))
         if out["environ"] is not None:
             got = [(k.encode("latin-1"), v.encode("latin-1")) for k, v in out["environ"].items() if k.startswith("HTTP_")]
             envs.append(("(environ_http %s)" % L, c_hdrs(got), ("buildEnviron HTTP_*", req)))
@@ -556,6 +567,91 @@ def gen(ctx):
     return f
 
 
+def quote_calls(repo):
+    """the percent-codec calls of the implementation: (function, safe set) per site; fail-closed"""
+    import ast
+
+    def method(path, cls, name):
+        tree = ast.parse(open(os.path.join(repo, "ioflo", "aio", "http", path)).read())
+        body = tree.body
+        if cls:
+            c = [n for n in body if isinstance(n, ast.ClassDef) and n.name == cls]
+            if len(c) != 1:
+                raise ValueError("class %s" % cls)
+            body = c[0].body
+        f = [n for n in body if isinstance(n, ast.FunctionDef) and n.name == name]
+        if len(f) != 1:
+            raise ValueError("function %s.%s" % (cls, name))
+        return f[0]
+
+    def calls(fn, names):
+        out = []
+        for n in ast.walk(fn):
+            if isinstance(n, ast.Call) and isinstance(n.func, ast.Name) and n.func.id in names:
+                out.append(n)
+            elif isinstance(n, ast.Call) and isinstance(n.func, ast.Attribute) and n.func.attr in names:
+                raise ValueError("qualified call of %s" % n.func.attr)
+        return out
+
+    def safe_of(call):
+        default = "/" if call.func.id == "quote" else ""
+        extra = [k for k in call.keywords if k.arg != "safe"]
+        if extra or len(call.args) > 2:
+            raise ValueError("unexpected arguments in %s(...)" % call.func.id)
+        node = call.args[1] if len(call.args) == 2 else None
+        for k in call.keywords:
+            if k.arg == "safe":
+                node = k.value
+        if node is None:
+            return default
+        if not (isinstance(node, ast.Constant) and isinstance(node.value, str)):
+            raise ValueError("safe set of %s(...) is not a literal" % call.func.id)
+        return node.value
+
+    Q = ("quote", "quote_plus", "quote_from_bytes")
+    build = calls(method("clienting.py", "Requester", "build"), Q)
+    path_calls = [c for c in build if isinstance(c.args[0], ast.Name) and c.args[0].id == "path"]
+    form_calls = [c for c in build if c not in path_calls]
+    if len(path_calls) != 1 or len(form_calls) != 2:
+        raise ValueError("Requester.build: %d path / %d form quote calls" % (len(path_calls), len(form_calls)))
+    if len(set((c.func.id, safe_of(c)) for c in form_calls)) != 1:
+        raise ValueError("form name and value are quoted differently")
+    uq = calls(method("httping.py", None, "updateQargsQuery"), Q)
+    if len(uq) != 1:
+        raise ValueError("updateQargsQuery: %d quote calls" % len(uq))
+    sp = calls(method("serving.py", "Requestant", "parseHead"), ("unquote", "unquote_plus", "unquote_to_bytes"))
+    if len(sp) != 1 or not (isinstance(sp[0].args[0], ast.Attribute) and sp[0].args[0].attr == "path") or len(sp[0].args) != 1 \
+            or sp[0].keywords:
+        raise ValueError("Requestant.parseHead: unquote of the path not found exactly once")
+    fn = {"quote": 0, "quote_plus": 1, "unquote": 0, "unquote_plus": 1}
+    for c in path_calls + form_calls + uq + sp:
+        if c.func.id not in fn:
+            raise ValueError("unmodelled function %s" % c.func.id)
+    return {"path": (fn[path_calls[0].func.id], safe_of(path_calls[0])),
+            "form": (fn[form_calls[0].func.id], safe_of(form_calls[0])),
+            "query": (fn[uq[0].func.id], safe_of(uq[0])),
+            "server_path": fn[sp[0].func.id]}
+
+
+def gen_quote(ctx):
+    q = quote_calls(ctx.repo)
+
+    def zs(t):
+        return "[" + "; ".join(str(b) for b in t.encode("ascii")) + "]"
+    text = ("(* GENERATED by props/C30/check.py from the quote/unquote calls in Requester.build, "
+            "httping.updateQargsQuery and Requestant.parseHead -- do not edit *)\n"
+            "From Coq Require Import List ZArith.\nImport ListNotations.\nOpen Scope Z_scope.\n"
+            "(* function: 0 = quote / unquote, 1 = quote_plus / unquote_plus *)\n"
+            "Definition path_quote_fn : Z := %d.\nDefinition path_safe : list Z := %s.\n"
+            "Definition query_quote_fn : Z := %d.\nDefinition query_value_safe : list Z := %s.\n"
+            "Definition form_quote_fn : Z := %d.\nDefinition form_safe : list Z := %s.\n"
+            "Definition server_path_unquote_fn : Z := %d.\n" % (
+                q["path"][0], zs(q["path"][1]), q["query"][0], zs(q["query"][1]),
+                q["form"][0], zs(q["form"][1]), q["server_path"]))
+    ctx.write_gen("C30_QuoteCalls.v", text)
+    return q
+
+
 SEQ_KINDS = ["len", "chunked", "stream", "empty", "error_gen", "error_call", "raise0"]
 
 
@@ -644,7 +740,11 @@ def run(ctx):
         gen(ctx)
     except Exception as ex:
         ctx.tie_broken("translator", "Responder field extraction", repr(ex))
-    ctx.coq_build(["C30/Props.v", "C30/PropsWhole.v", "C30/PropsReset.v"])
+    try:
+        gen_quote(ctx)
+    except Exception as ex:
+        ctx.tie_broken("translator", "quote/unquote call extraction", repr(ex))
+    ctx.coq_build(["C30/Props.v", "C30/WholeMessage.v", "C30/PropsWhole.v", "C30/PropsReset.v", "C30/PropsQuote.v"])
 
     bz, pz, sz = function_cases(ctx)
     for group, eqb, nm in ((bz, "lz_eqb", "fn_bytes"), (pz, "prs_eqb", "fn_pairs"), (sz, "pr_eqb", "fn_chunk")):
@@ -657,9 +757,17 @@ def run(ctx):
 
     failing = []
     evcases, evmeta = [], []
+    pct_requests = []
+    for path in [u"/sale/50%25off", u"/files/report%20final.txt", u"/caf%C3%A9", u"/%41", u"/%4", u"/%%", u"/a%zz/b",
+                 u"/%2F%2f", u"/100%", u"/%25%2525", u"/x%20y z+w", u"/é%C3%A9"]:
+        pct_requests.append({"method": u"GET", "path": path, "qargs": [(u"k", path[1:]), (u"q", u"%26=%3D+%2B")],
+                             "headers": [], "body": None, "data": None, "fargs": None})
+        pct_requests.append({"method": u"POST", "path": path, "qargs": [], "headers": [], "body": None, "data": None,
+                             "fargs": [(u"f%41", path), (u"g", u"%%20")]})
     whead_cases, wenv_cases = [], []
-    for _ in range(ctx.n(450, 5000)):
-        req = gen_request(ctx.rng)
+    nrand = ctx.n(450, 5000)
+    for it in range(len(pct_requests) + nrand):
+        req = pct_requests[it] if it < len(pct_requests) else gen_request(ctx.rng)
         resp = gen_response(ctx.rng)
         out = harness.run_exchange(req, resp)
         if len(whead_cases) < ctx.n(60, 600) and not out["error"]:
@@ -751,7 +859,9 @@ def run(ctx):
             return None
         best = min(cands, key=lambda c: len(repr(c[0])) + len(repr(c[1])))
         req, resp, out, why = best
-        if "form" in why:
+        if "PATH_INFO" in why:
+            key = "path-percent-not-escaped"
+        elif "form" in why:
             key = "form-reserved-chars"
         elif "HTTPError" in why and resp["kind"] == "error_call":
             key = "httperror-at-call"
